@@ -69,7 +69,19 @@ func (s pspec) run() []pt {
 	if s.Reverse {
 		p.Reverse()
 	}
-	return fromV2(p.Vertices())
+	// reading the vertices twice must give the same list: the builder's state after the first
+	// expansion (smoothing, arcs, relative -> absolute) must not leak into the second
+	first := fromV2(p.Vertices())
+	second := fromV2(p.Vertices())
+	if len(first) != len(second) {
+		return second
+	}
+	for i := range first {
+		if first[i] != second[i] {
+			return second
+		}
+	}
+	return first
 }
 
 // ---------------------------------------------------------------------------
